@@ -73,6 +73,8 @@ type Contract struct {
 	AtStores []*AtCall // Callee holds the field key "Type.field"
 	AtReturns []*Clause
 	Inline   bool
+	ProofOnly map[string]bool
+	ProofUses map[string][]string // obligation label -> labels of the quantified contract clauses its proof may use
 	Interference bool // re-acquiring a lock released earlier in the function havocs the heap (other goroutines ran)
 	Trusted  bool // body not verified; contract assumed at call sites (reported)
 	Safety   []string // tags for which implicit safety obligations are claimed
@@ -248,7 +250,7 @@ func (p *Program) parseContractFile(fname string, f *ast.File) error {
 		}
 	}
 	// join continuation lines: a line is a continuation unless it starts with a keyword
-	kw := regexp.MustCompile(`^(func|requires|ensures|assume|modifies|tags|loop|at|inline|trusted|safety|serialaudit|auditserial|interference|noverify|pred|clause|writers)\b`)
+	kw := regexp.MustCompile(`^(func|requires|ensures|assume|modifies|tags|loop|at|inline|trusted|safety|serialaudit|auditserial|interference|noverify|pred|clause|writers|proof)\b`)
 	var joined []line
 	for _, l := range lines {
 		if kw.MatchString(l.text) || len(joined) == 0 {
@@ -392,6 +394,21 @@ func (p *Program) parseContractFile(fname string, f *ast.File) error {
 			cur.Safety = append(cur.Safety, fields[1:]...)
 		case "serialaudit":
 			cur.Serial = append(cur.Serial, fields[1:]...)
+		case "proof":
+			// proof <label> uses <label>... : the quantified contract clauses (invariants, preconditions, lemmas) offered
+			// to the solver for the obligations with that label; fewer hypotheses, never more (sound)
+			if len(fields) < 3 || (fields[2] != "uses" && fields[2] != "only") {
+				return bad("proof <label> uses|only <label>...")
+			}
+			if cur.ProofUses == nil {
+				cur.ProofUses = map[string][]string{}
+				cur.ProofOnly = map[string]bool{}
+			}
+			cur.ProofUses[fields[1]] = append(cur.ProofUses[fields[1]], fields[3:]...)
+			if fields[2] == "only" {
+				// "only" also withholds the quantifier-free contract clauses that are not listed
+				cur.ProofOnly[fields[1]] = true
+			}
 		case "inline":
 			cur.Inline = true
 		case "interference":
